@@ -20,35 +20,21 @@ Theorem entities_never_longer :
 Proof. exact entities_never_longer_proof. Qed.
 Print Assumptions entities_never_longer.
 
-(* Idempotence is FALSE on the current code (no look-behind in replaceEntities, DESIGN D15):
-   `&#x&#x41;;` -> `&#xA;` -> LF, with empty maps. *)
-Theorem entities_idempotent_refuted :
-  exists em rm b o1 o2, maps_ok em rm = true /\
-    replace_entities em rm b = Ok o1 /\ replace_entities em rm o1 = Ok o2 /\ o1 <> o2.
-Proof. exact entities_idempotent_refuted_proof. Qed.
-Print Assumptions entities_idempotent_refuted.
-
-(* "Leaves the decoded text unchanged" is FALSE on the current code: `&#x&#x41;;` decodes to the
-   text `&#xA;`, its replacement `&#xA;` decodes to LF (no reference to NUL involved). *)
-Theorem entities_preserve_decoding_refuted :
-  exists em rm b o, maps_ok em rm = true /\ ~ In 0 (html_decode b) /\
-    replace_entities em rm b = Ok o /\ html_decode o <> html_decode b.
-Proof. exact entities_preserve_decoding_refuted_proof. Qed.
-Print Assumptions entities_preserve_decoding_refuted.
-
-(* What does hold of idempotence: on every [clean] input (text without '&' interleaved with any number of
+(* Idempotence, proved part: on every [clean] input (text without '&' interleaved with any number of
    terminated decimal / hexadecimal references, leading zeros allowed, to ASCII bytes other than NUL and
-   '&'; any name map, no reverse map) ReplaceEntities returns the decoded text and a second pass changes
-   nothing.  Missing: all other shapes; in general the clause is false (entities_idempotent_refuted). *)
+   '&', none of them to a letter, digit, '#' or ';' directly behind 34 or more bytes of [0-9a-zA-Z#]; any name
+   map, no reverse map) ReplaceEntities returns the decoded text and a second pass changes nothing.
+   Missing: all other shapes.  Since /repo 628a240 + c07f47f (look-behind) no counterexample is known: the
+   former witnesses `&#x&#x41;;` and `&#` 32 digits `&#59;` are now left unchanged (corpus, oracle). *)
 Theorem entities_idempotent_partial :
   forall em b o, clean b o ->
     replace_entities em [] b = Ok o /\ replace_entities em [] o = Ok o.
 Proof. exact entities_idempotent_partial_proof. Qed.
 Print Assumptions entities_idempotent_partial.
 
-(* What does hold of "decoded text unchanged": on every [clean] input the output IS the decoding of the
-   input (and, containing no '&', decodes to itself).  Missing: all other shapes; in general the clause
-   is false (entities_preserve_decoding_refuted). *)
+(* Decoded text unchanged, proved part: on every [clean] input the output IS the decoding of the input (and,
+   containing no '&', decodes to itself).  Missing: all other shapes (no counterexample known since the
+   look-behind fixes). *)
 Theorem entities_preserve_decoding_partial :
   forall em b o, clean b o ->
     replace_entities em [] b = Ok o /\ html_decode b = o /\ html_decode o = o.
